@@ -179,18 +179,79 @@ static void sched_point(int kind, pthread_mutex_t *m) {
     th[self].state = S_READY;
 }
 
-/* fork mode: victims park at their k-th stop point and hand the baton to main */
-static void maybe_park(int kind) {
-    if (!fk_mode || me < 0 || me >= fk_victims) return;
-    if (kind != K_ACQ && kind != K_UNLOCK) return;
+/* fork mode: victims park at their k-th stop point (whatever its kind) and hand the baton to main */
+static char fk_label[64] = "-";
+static void maybe_park_l(int kind, const char *label) {
+    if (!fk_mode || !sched_active || me < 0 || me >= fk_victims) return;
     th[me].nsync++;
-    if (th[me].nsync == fk_stop_at && kind == fk_stop_kind) {
+    if (th[me].nsync == fk_stop_at) {
+        if (me == 0) snprintf(fk_label, sizeof fk_label, "%s", label);
+        fk_stop_kind = kind;
         th[me].state = S_PARKED;
         fk_parked++;
         sem_post(&main_sem);
         sem_wait(&th[me].sem);
         th[me].state = S_READY;
     }
+}
+static void maybe_park(int kind) { maybe_park_l(kind, kind == K_ACQ ? "in-lock" : "after-unlock"); }
+
+/* further stop points in fork mode: right before every I/O call the library makes (a descriptor may be open, a file lock
+   held, a socket connected at that instant) */
+#define K_IO 7
+#include <stdarg.h>
+#include <sys/file.h>
+#include <sys/socket.h>
+#define IO_PARK(name) do { void *ra_ = __builtin_return_address(0); if (fk_mode && sched_active && me >= 0 && from_snoopy(ra_)) maybe_park_l(K_IO, "io:" name); } while (0)
+__attribute__((visibility("default"))) int open(const char *p, int flags, ...) {
+    static int (*r)(const char *, int, ...);
+    if (!r) r = dlsym(RTLD_NEXT, "open");
+    mode_t m = 0;
+    if (flags & O_CREAT) { va_list ap; va_start(ap, flags); m = va_arg(ap, mode_t); va_end(ap); }
+    IO_PARK("open");
+    return r(p, flags, m);
+}
+__attribute__((visibility("default"))) ssize_t write(int fd, const void *b, size_t n) {
+    static ssize_t (*r)(int, const void *, size_t);
+    if (!r) r = dlsym(RTLD_NEXT, "write");
+    IO_PARK("write");
+    return r(fd, b, n);
+}
+__attribute__((visibility("default"))) int close(int fd) {
+    static int (*r)(int);
+    if (!r) r = dlsym(RTLD_NEXT, "close");
+    IO_PARK("close");
+    return r(fd);
+}
+__attribute__((visibility("default"))) int socket(int d, int t, int p) {
+    static int (*r)(int, int, int);
+    if (!r) r = dlsym(RTLD_NEXT, "socket");
+    IO_PARK("socket");
+    return r(d, t, p);
+}
+__attribute__((visibility("default"))) ssize_t send(int fd, const void *b, size_t n, int f) {
+    static ssize_t (*r)(int, const void *, size_t, int);
+    if (!r) r = dlsym(RTLD_NEXT, "send");
+    IO_PARK("send");
+    return r(fd, b, n, f);
+}
+__attribute__((visibility("default"))) int flock(int fd, int op) {
+    static int (*r)(int, int);
+    if (!r) r = dlsym(RTLD_NEXT, "flock");
+    IO_PARK("flock");
+    return r(fd, op);
+}
+__attribute__((visibility("default"))) FILE *fopen(const char *p, const char *m) {
+    static FILE *(*r)(const char *, const char *);
+    if (!r) r = dlsym(RTLD_NEXT, "fopen");
+    IO_PARK("fopen");
+    return r(p, m);
+}
+__attribute__((visibility("default"))) int fclose(FILE *f) {
+    static int (*r)(FILE *);
+    if (!r) r = dlsym(RTLD_NEXT, "fclose");
+    IO_PARK("fclose");
+    return r(f);
 }
 
 __attribute__((visibility("default"))) int pthread_mutex_lock(pthread_mutex_t *m) {
@@ -497,7 +558,10 @@ static int fork_scenario(void) {
     int stop_at_arg = fk_stop_at;
     for (int t = 0; t < NT; t++) {
         sem_post(&th[t].sem);
-        if (t == 0 || fk_stop_kind == K_UNLOCK || th[0].state != S_PARKED) {
+        int lock_held = 0;
+        for (int i = 0; i < nsh; i++)
+            if (sh_owner[i] == 0) lock_held = 1;
+        if (t == 0 || !lock_held || th[0].state != S_PARKED) {
             sem_wait(&main_sem);
             if (th[t].state == S_PARKED) parked++;
             else completions++;
@@ -584,7 +648,7 @@ static int fork_scenario(void) {
     sched_active = 0;
     printf("{\"ev\":\"FORK\",\"victims\":%d,\"stop_at\":%d,\"stop_kind\":\"%s\",\"child_kind\":%d,\"parked\":%d,\"points_seen\":%d,\"child_done\":%d,\"child_status\":%d,"
            "\"fork_waited_for_lock\":%d,\"child_reached_end\":\"%c\",\"child_blocked_samples\":%d,\"child_syscall\":\"%s\",\"victims_done\":%d,\"problem\":\"%s\",",
-           fk_victims, stop_at_arg, fk_stop_kind == K_ACQ ? "in-lock" : "after-unlock", fk_child_kind, parked, points, done, done && WIFEXITED(st) ? WEXITSTATUS(st) : -1,
+           fk_victims, stop_at_arg, fk_label, fk_child_kind, parked, points, done, done && WIFEXITED(st) ? WEXITSTATUS(st) : -1,
            fork_waited_for_lock, got ? got : '-', blocked_samples, sysc, victims_done, problem);
     dump_records(stdout);
     printf("\"nreal\":%ld}\n", nreal_calls);
@@ -606,7 +670,7 @@ int main(int argc, char **argv) {
         else if (!strcmp(argv[i], "--shard")) sscanf(argv[++i], "%d/%d", &shard, &nshards);
         else if (!strcmp(argv[i], "--log")) snprintf(logpath, sizeof logpath, "%s", argv[++i]);
         else if (!strcmp(argv[i], "--stop-at")) fk_stop_at = atoi(argv[++i]);
-        else if (!strcmp(argv[i], "--stop-kind")) fk_stop_kind = !strcmp(argv[++i], "in-lock") ? K_ACQ : K_UNLOCK;
+        else if (!strcmp(argv[i], "--stop-kind")) i++;   /* obsolete: the k-th stop point is taken whatever its kind */
         else if (!strcmp(argv[i], "--victims")) fk_victims = atoi(argv[++i]);
         else if (!strcmp(argv[i], "--child-kind")) fk_child_kind = atoi(argv[++i]);
     }
